@@ -157,3 +157,45 @@ def lemma_mod_frame(ctx):
            ("apply_mod F6: no deletion and no mutating call other than molecule.add_interaction on objects reachable from the arguments"
             + (f"  [{[c.func.attr for c in mutators] + others}]" if mutators or others else ""), [], z3.BoolVal(not mutators and not dels and not others))]
     return out
+
+
+# ---- _patch_protein_termini: which residues the default terminal modifications address ----------------------------------------------
+from pyvc.types import TList as _TL, TTuple as _TT      # noqa: E402
+RES2 = TRec("nodeattrs", resid=TInt, resname=TNode)
+METAMOL2 = TGraph(RES2)
+SPEC2 = TRec("resspec", resid=TInt, resname=TNode)
+REG_T = Registry()
+REG_T.add(Contract(NODE_FROM_RESID.target, params=dict(meta_molecule=METAMOL2, resid=TInt), result=TNode,
+                   raises=[("KeyError", "none_has(meta_molecule, resid)")],
+                   ensures={"the returned node is a residue of the molecule with exactly that residue id": "result in meta_molecule.nodes and meta_molecule.nodes[result]['resid'] == resid"},
+                   spec_fns=dict(none_has=none_has), trusted=True,
+                   note="the proved contract of _node_from_resid (unit modification-target-by-resid), re-stated for residue names as opaque atoms"))
+
+
+def lowest(mm, r):
+    return z3.And(z3.Exists([x_], z3.And(is_node(mm, x_), resid_of(mm, x_) == r)), z3.ForAll([x_], z3.Implies(is_node(mm, x_), r <= resid_of(mm, x_))))
+
+
+def highest(mm, r):
+    return z3.And(z3.Exists([x_], z3.And(is_node(mm, x_), resid_of(mm, x_) == r)), z3.ForAll([x_], z3.Implies(is_node(mm, x_), resid_of(mm, x_) <= r)))
+
+
+def names(mm, spec):
+    """the specification carries the name of a residue that has its residue id"""
+    nd = mm.fields["nodes"]
+    a = nd.v.unflat([c[x_] for c in nd.comps])
+    sp = spec.fields if hasattr(spec, "fields") else spec
+    return z3.Exists([x_], z3.And(is_node(mm, x_), a.fields["resid"] == sp["resid"], a.fields["resname"] == sp["resname"]))
+
+
+TERMINI = REG_T.add(Contract(
+    "polyply.src.apply_modifications:_patch_protein_termini", params=dict(meta_molecule=METAMOL2, ter_mods=_TL(TNode)), result=_TL(_TT(SPEC2, TNode)),
+    requires={"at least one terminal modification is named": "len(ter_mods) >= 1", "the molecule has residues": "nonempty(meta_molecule)"},
+    ensures={"two targets": "len(result) == 2",
+             "the first target is a residue with the lowest residue id, addressed by that id and its name, with the first modification":
+             "lowest(meta_molecule, result[0][0]['resid']) and names(meta_molecule, result[0][0]) and result[0][1] == ter_mods[0]",
+             "the second target is a residue with the highest residue id, with the second modification (the first one when only one is named)":
+             "highest(meta_molecule, result[1][0]['resid']) and names(meta_molecule, result[1][0]) and result[1][1] == (ter_mods[1] if len(ter_mods) > 1 else ter_mods[0])"},
+    spec_fns=dict(lowest=lowest, highest=highest, names=names, nonempty=lambda mm: z3.Exists([x_], is_node(mm, x_))),
+    inline_callees=("polyply.src.apply_modifications:_resids",), props=("C01",),
+    note="_node_from_resid through its proved contract; min / max over the residue ids modelled (a value that is attained and bounds the others)"))
